@@ -280,6 +280,24 @@ def r6(idx, rep):
     c13.r1(idx, K.as_rule(rep, "R6", keep=lambda k: "blank-last branch" in k), "quick")
     # the handler a run method builds for a member collects into the member's result, whatever that result holds so far
     c05.collector_table(idx, rep, "R6")
+    save_before_first_line(idx, rep, "R1")
     # Result.collect_error keeps every error; errors.json is written from result.errors
     fc, ps = K.sym_result(idx, "Result", "collect_error", args={"error": "E2"}, store={"self._errors": ["E1"]})
     rep.check(len(ps) == 1 and ps[0].final_store.get("self._errors") == ["E1", "E2"], "R6", f"{fc.file}::Result.collect_error appends", f"{ps[0].final_store.get('self._errors')}", K.where(fc, fc.node))
+
+
+def save_before_first_line(idx, rep, rid):
+    """in a breadth-first run that is aborted on its first line the members after the aborting one have not been handed a line yet: they are
+    saved all the same (meta.json is written from the runtime data), so collecting the runtime data of a member in the state its
+    constructor leaves (no run start time, no counts, no line seen) must not fault"""
+    fi = idx.method("RuntimeDataCollector", "collect")
+    rep.analysed(fi)
+    st = dict(K.instance_store(idx, "CsvPath", selfkey="cp"))
+    st.update({"cp.line_monitor": Obj("lm"), "cp.scanner": Obj("sc"), "lm.physical_line_number": None, "lm.physical_line_count": None, "lm.data_line_count": None,
+               "lm.data_end_line_count": 9, "sc.filename": "F.csv", "cp.identity": "ID", "cp.headers": ["a"]})
+    props = {f"{c.name}.{p_}" for c in idx.mro("CsvPath") for p_ in c.properties if p_ not in ("line_monitor", "headers", "identity", "scanner")}
+    it = Interp(idx, types={"cls": "RuntimeDataCollector", "self": "RuntimeDataCollector", "cp": "CsvPath"}, inline_all={"RuntimeDataCollector"}, inline=props,
+                unknown_calls="residual")
+    ps = it.run_all(fi, args={"__pos__": [Obj("cp"), {}], "local": True}, selfkey="cls", store=st)
+    bad = next((f"collecting the runtime data of a member that has not seen a line ends in {p.result} ({[t for t in p.trace if t[0] == 'raise'][-1:]})" for p in ps if p.result[0] != "return"), None)
+    rep.check(bad is None and len(ps) >= 1, rid, f"{fi.file}::RuntimeDataCollector.collect works on a member that has not seen a line", bad or f"{len(ps)} paths", K.where(fi, fi.node))
